@@ -939,7 +939,9 @@ func main() {
 
 		if os.Getenv("C37_SKIP_INPROC") == "" {
 			inProcess(c)
-			extStream(c)
+			if os.Getenv("C37_SKIP_EXT") == "" {
+				extStream(c)
+			}
 		}
 		splitterTie(c)
 		if plz := os.Getenv("VERIF_PLZ"); plz != "" {
